@@ -124,3 +124,14 @@ fn kf_c04_read_only_refused_still_fails() {
     assert!(r0.is_ok(), "read-only Serializable transaction refused");
     std::mem::forget((r0, r1, mgr));
 }
+
+//@ property: C04
+//@ tier: quick
+//@ cap_s: 400
+//@ unwind: 5
+//@ stubs: parking_lot slow paths, alloc::fmt::format
+//@ encodes: TransactionManager::{begin_with_isolation,record_read,record_write,commit,gc,state}
+//@ symbolic: two entities (nodes, all id bits)
+//@ bound: write skew with clean-up between the two commits, all Serializable: begin T0; begin T1; read(T0,e0); read(T1,e1); write(T0,e1); write(T1,e0); commit T0; gc; commit T1
+//@ oracle: gc between the commits must not forget the first committer while the second (Serializable) is still active: T1 is refused exactly as without gc
+hist4!(c04_write_skew_gc_between, s, [any_node(), any_node()], [2, 2, 2], { s.b(0); s.b(1); s.r(0,0); s.r(1,1); s.w(0,1); s.w(1,0); s.c(0); s.g(); s.c(1); }, |m, same| m == 0b01 && !same);
